@@ -303,7 +303,7 @@ def run_shapes(ctx):
 # --------------------------------------------------------------------- entry points
 def run(ctx):
     run_shapes(ctx)
-    opts = H.Opts()
+    opts = H.Opts(fresh=True)
     n = ctx.n(300, 2500)
 
     def body(case):
@@ -317,7 +317,7 @@ def run(ctx):
     drive(ctx, H.histories(flat), body, max(20, n // 3), salt=2, label="C01 flat histories")
     # long histories (the world is small, so these are mostly re-definitions, removals and re-registrations of the same
     # locations: what accumulates in the indices over a long session); a few in the quick tier, many in the thorough one
-    long = H.Opts(min_ops=40, max_ops=ctx.n(60, 120))
+    long = H.Opts(min_ops=40, max_ops=ctx.n(60, 120), fresh=True)
     drive(ctx, H.histories(long), body, ctx.n(12, 250), salt=3, label="C01 long histories")
 
 
